@@ -419,6 +419,10 @@ def hierarchy_order(ctx):
     round-trips: order-preserving removal in the ordered dictionary, and dimensions serialised in their own order."""
     from . import c03, c13
     c03.dict_remove_shifts(ctx)
+    c03.add_keeps_rank_order(ctx)
+    # a duplicate name is refused by a lookup in the hierarchy itself (a re-added attribute would otherwise be re-ranked)
+    from . import c09
+    c09.failure_decided_by_own_lookup(ctx)
     c13.restricted(ctx, r'(dimension::Dimension|AccessStructure)$', [c13.agree, c13.order])
 
 
@@ -489,3 +493,11 @@ def distinct_secrets(ctx):
     from . import c16
     c16.rng_threading(ctx)
     c16.ids_and_secrets(ctx)
+
+
+@rule('C02', 'encryption-targets-the-whole-policy')
+def encryption_targets_the_whole_policy(ctx):
+    """An encapsulation is made for the rights of the policy AS WRITTEN: the DNF keeps every clause and every attribute of a
+    clause (C15.dnf-keeps-clauses) — a clause that loses an attribute is opened by keys the policy excludes."""
+    from . import c15
+    c15.dnf_keeps_clauses(ctx)
